@@ -57,6 +57,31 @@ func c16ConfigSamePkg(p *spec.Program) spec.Config {
 	return c
 }
 
+// c16ConfigCoincide: scalar option values that coincide with names used elsewhere in the configuration —
+// the default package is called like the message most list entries start with, the target package like
+// another selected type.
+func c16ConfigCoincide(p *spec.Program) spec.Config {
+	c := p.Config.Clone()
+	c.Sort = true
+	count := map[string]int{}
+	for _, l := range [][]string{c.ExcludeFields, c.ComputedFields, c.RequiredFields, c.SensitiveFields} {
+		for _, k := range l {
+			if i := strings.Index(k, "."); i > 0 {
+				count[k[:i]]++
+			}
+		}
+	}
+	best := ""
+	for _, t := range c.Types {
+		if best == "" || count[t] > count[best] {
+			best = t
+		}
+	}
+	c.DefaultPackageName = best
+	c.TargetPackageName = strings.ToLower(c.Types[len(c.Types)-1])
+	return c
+}
+
 // ConfigPathShapes: ways of naming a readable configuration file.
 var ConfigPathShapes = []string{"absolute", "subdir", "dotdot", "symlink", "symlink-chain", "symlink-dir", "hardlink", "spaces", "noext", "hidden", "readonly"}
 
@@ -186,10 +211,13 @@ func C16Cases(p *spec.Program, seed uint64, tier string, nSplits int) ([]*Case, 
 		kinds[clause]++
 		cases = append(cases, &Case{Property: "C16", Clause: clause, Seed: seed, Tier: tier, Program: p, Ref: ref, Run: run, Expect: ex})
 	}
-	for variant := 0; variant < 3; variant++ {
+	for variant := 0; variant < 4; variant++ {
 		cfg := c16Config(p, variant == 0)
 		if variant == 2 {
 			cfg = c16ConfigSamePkg(p)
+		}
+		if variant == 3 {
+			cfg = c16ConfigCoincide(p)
 		}
 		refR := runFrom(cfg.Render(allOn(spec.ChYAML), nil))
 		refR.Note = "reference: every option in the YAML file"
